@@ -369,7 +369,8 @@ class ParserSim:
             return cfg
         # swarm weights
         fail_bias = rng.choice([0.5, 0.7, 0.85]) if prop == "C10" else rng.choice([0.15, 0.3, 0.5])
-        cfg["n_ops"] = rng.choice([6, 10, 16, 24, 40])
+        # mostly short sessions; a few long ones for state that accumulates over many calls
+        cfg["n_ops"] = rng.choice([6, 10, 16, 24, 40, 40, 120, 300] if rng.random() < 0.1 else [6, 10, 16, 24, 40])
         cfg["w"] = {
             "parse": rng.choice([3, 5, 8]),
             "tokenize": rng.choice([0, 1, 3, 5]) if prop == "C12" else rng.choice([0, 1]),
